@@ -678,3 +678,69 @@ def match_record_roles(ctx, rule='PAIR'):
     if n == 0:
         ctx.undecided(rule, construct, 'no consumer unpacks the records by position')
     return n
+
+
+def locate_by_text(ctx, fi, rule='SLICE'):
+    """
+    Inside a regex match, a sub-match has a POSITION (mo.start(g) / mo.end(g),
+    or its length counted from a known end).  Looking its text up again in
+    the matched string (`.index(x)`, `.find(x)`, `.split(x)`, `.replace(x,..)`
+    with x taken from a group of the match) finds the FIRST occurrence of
+    those characters, which is another place whenever the text repeats.
+    Returns the number of sites examined; reports each offending call.
+    """
+    from .. import flow as _flow
+    n = 0
+    for c in walk_local(fi.node):
+        if not (isinstance(c, ast.Call) and isinstance(c.func, ast.Attribute)
+                and c.func.attr in ('index', 'find', 'rindex', 'rfind', 'split', 'rsplit', 'partition', 'rpartition', 'replace')
+                and c.args):
+            continue
+        try:
+            pa = _flow.provenance(fi.node, c.args[0])
+            pr = _flow.provenance(fi.node, c.func.value)
+        except Exception:
+            continue
+
+        def from_match(pv):
+            return any(p[0] == 'call' and p[1].split('.')[-1] == 'group' for p in pv) or \
+                any(p[0] == 'sub' and _re_mo.search(p[1]) for p in pv)
+        import re as _re
+        _re_mo = _re.compile(r"\b(mo|match|\w*_mo)\b\[")
+        if from_match(pa) and from_match(pr):
+            n += 1
+            ctx.violation(rule, f"{fi.qualname}: a sub-match is located by its position in the match, not by searching for its text",
+                          f"`{norm(c)[:70]}` searches the matched text for the characters of one of its groups: with a repeated "
+                          f"component ('S2SESE') the first occurrence is found instead of the group's own position",
+                          key=f"{rule}|{fi.qualname}|by-text|{c.func.attr}", where=loc(fi, c))
+    return n
+
+
+def cut_out_spans(ctx, fi, rule='SLICE'):
+    """`text[:mo.start(a)] ... text[mo.end(b):]` removes the span of ONE thing:
+    a and b name the same group (or both the whole match)."""
+    n = 0
+    starts, ends = {}, {}
+    for x in walk_local(fi.node):
+        if isinstance(x, ast.Subscript) and isinstance(x.slice, ast.Slice):
+            sl = x.slice
+            if sl.lower is None and isinstance(sl.upper, ast.Call) and isinstance(sl.upper.func, ast.Attribute) \
+                    and sl.upper.func.attr == 'start':
+                starts.setdefault(norm(sl.upper.func.value), []).append((sl.upper, x))
+            if sl.upper is None and isinstance(sl.lower, ast.Call) and isinstance(sl.lower.func, ast.Attribute) \
+                    and sl.lower.func.attr == 'end':
+                ends.setdefault(norm(sl.lower.func.value), []).append((sl.lower, x))
+    for mo_, ss in starts.items():
+        for (sc, sx) in ss:
+            for (ec, ex) in ends.get(mo_, []):
+                if norm(sx.value) != norm(ex.value) or enclosing_stmt(sx)._parent is not enclosing_stmt(ex)._parent:
+                    continue
+                n += 1
+                ga = norm(sc.args[0]) if sc.args else '0'
+                gb = norm(ec.args[0]) if ec.args else '0'
+                ctx.check(ga == gb, rule, f"{fi.qualname}: `{norm(sx)}` / `{norm(ex)}` cut out one span",
+                          f"start({ga}) .. end({gb})",
+                          f"the text before `{mo_}.start({ga})` and after `{mo_}.end({gb})` is kept: the part of the match between "
+                          f"its own start and the start of group {ga} stays in the text and is parsed a second time",
+                          key=f"{rule}|{fi.qualname}|cut|{ga}|{gb}", where=loc(fi, sx))
+    return n
